@@ -28,14 +28,18 @@ def handler(c):
     extra = {}
     # committee predictions as the calculator stores them: an array, or a plain list / tuple of per-model predictions (any array-like is legal)
     wrap = {"list": lambda x: [np.array(m, dtype=float).tolist() for m in x], "tuple": lambda x: tuple(np.array(m, dtype=float) for m in x)}.get(c.get("store"), lambda x: np.array(x, dtype=float))
+    # the names under which the calculator publishes its committee data are settings of the simulation (forces_variance_keyword / energies_variance_keyword)
+    fkey, ekey = ("committee_forces", "committee_energies") if c.get("custom_keys") else ("forces_comm", "energies")
     if c.get("forces_comm") is not None:
-        extra["forces_comm"] = wrap(c["forces_comm"])
+        extra[fkey] = wrap(c["forces_comm"])
     if c.get("energies") is not None:
-        extra["energies"] = wrap(c["energies"]) if c.get("store") != "tuple" else tuple(float(x) for x in c["energies"])
+        extra[ekey] = wrap(c["energies"]) if c.get("store") != "tuple" else tuple(float(x) for x in c["energies"])
     atoms.calc = Committee(extra)
     late = c.get("late") or {}
     sim = AdaptiveForceBias(atoms, late.get("lo", c["lo"]), late.get("hi", c["hi"]), temperature=300.0, scheme=late.get("scheme", c["scheme"]),
                             reference_variance=late.get("r", c["r"]), update_function=late.get("fn", c["fn"]), seed=3)
+    if c.get("custom_keys"):
+        sim.forces_variance_keyword, sim.energies_variance_keyword = fkey, ekey
     initial_delta = float(sim.delta)
     atoms.get_potential_energy()
     if late:
